@@ -282,10 +282,19 @@ func c13FromParams(name string, p map[string]any) *schedScenario {
 
 func runC13(R *vlib.Out) {
 	if *vlib.ReplayPath != "" {
-		replaySched(R, c13FromParams)
+		var probe struct {
+			Scenario string `json:"scenario"`
+		}
+		vlib.LoadReplay(&probe)
+		if probe.Scenario == "c13x" {
+			replaySched(R, c13xScenario)
+		} else {
+			replaySched(R, c13FromParams)
+		}
 		finishSched(R)
 		return
 	}
+	runC13x(R)
 	thorough := *vlib.Tier == "thorough"
 	points := []string{"nologon", "logged", "inbound2", "sends2", "logout"}
 	// Session.Stop is not among the endings the statement lists (it only cancels the session context) and is not judged here
